@@ -54,6 +54,7 @@ type eev struct {
 	Extra int
 	K     int // app: penalty amount, 0 = BanPeer
 	Bytes []byte
+	Size  int // req: payload size class of the well-formed request and of its echoed response (index into sizeClasses, size_test.go; 0: the usual 5 bytes)
 }
 
 type escn struct {
@@ -85,6 +86,8 @@ type escn struct {
 	LC       lconf
 	HitRun   bool  // "hit-and-run" offenders: the offending message is followed at once by the close of the stream AND of the connection (hitrun_test.go)
 	HR       hconf
+	Size     bool // large honest messages: well-formed requests and responses of 0 B .. 3 MiB in both directions (size_test.go)
+	SZ       sconf
 	Events   []eev
 }
 
@@ -132,7 +135,13 @@ func genScenario() *rapid.Generator[escn] {
 		// right after observed counter resets while the other procedures carry legal traffic (1 in 10)
 		// (rapid draws small values and the bounds of a range far more often than the middle: the middle values are used,
 		// measured shares ~20 % and ~10 %)
-		switch f := rapid.IntRange(0, 19).Draw(t, "flavour"); {
+		// (0..21 since the flavour "large honest messages" was added: measured shares of the draw 20: 2.6 %, 21: 5.3 %; the
+		// others shrink by about a tenth each, late responses 17-19: 8.3 %)
+		switch f := rapid.IntRange(0, 21).Draw(t, "flavour"); {
+		case f >= 20 && os.Getenv("VERIF_C18_NO_SIZE") == "":
+			// honest messages of every size class up to 3 MiB, requests and responses, both directions (size_test.go)
+			genSize(t, &s)
+			return s
 		case (f == 3 || f == 13) && os.Getenv("VERIF_C18_NO_HITRUN") == "":
 			// hit-and-run offenders (hitrun_test.go): one value taken from the general scenarios and one from the
 			// multi-connection peers (measured share of the draw: see notes/C18.md)
@@ -224,6 +233,7 @@ func genScenario() *rapid.Generator[escn] {
 				e.Proc = rapid.IntRange(0, len(echoProcs)-1).Draw(t, "proc")
 				e.Burst = rapid.SampledFrom([]string{"within", "tolimit", "tolimit"}).Draw(t, "burst")
 				e.Extra = rapid.IntRange(0, 5).Draw(t, "extra")
+				e.Size = genReqSize(t)
 				s.Events = append(s.Events, e)
 			}
 			// and certainly after a reset: every procedure filled exactly to its limit
@@ -258,6 +268,7 @@ func genScenario() *rapid.Generator[escn] {
 				e.Extra = rapid.IntRange(0, s.Limit+2).Draw(t, "extra")
 				e.K = rapid.IntRange(1, 60).Draw(t, "k")
 				e.Proc = rapid.SampledFrom([]int{0, 0, 1, 2}).Draw(t, "proc")
+				e.Size = genReqSize(t)
 				s.Events = append(s.Events, e)
 			}
 			e := eev{From: off.From, To: off.To}
@@ -523,6 +534,10 @@ type erun struct {
 	onServe   func(i int, req *p2p.Request)
 	// optional (hitrun_test.go): called by the strict handler of node i right before and right after its ApplyPenalty/BanPeer call
 	onStrict func(i int, req *p2p.Request, phase string)
+	// optional (size_test.go): the answer of the echo handlers of node i to this request (false: echo the request data)
+	answer   func(i int, req *p2p.Request) ([]byte, bool)
+	lastResp []byte // payload of the response of the last served request (request)
+	lastOK   bool
 	// legal / mirror scenarios
 	started    time.Time // all nodes started (their rate limiters tick from about here)
 	firstReset bool      // a counter reset was observed at least one interval after the start
@@ -606,6 +621,12 @@ func (r *erun) setup() error {
 			if err := c.RegisterRPCHandler(proc, func(w p2p.ResponseWriter, req *p2p.Request) {
 				if r.onServe != nil {
 					r.onServe(node, req)
+				}
+				if r.answer != nil {
+					if data, ok := r.answer(node, req); ok {
+						w.Write(data)
+						return
+					}
 				}
 				w.Write(req.Data)
 			}, p2p.WithRPCMessageCounter(L, P)); err != nil {
@@ -1185,6 +1206,7 @@ func (r *erun) request(a, b int, proc string, data []byte) string {
 		r.res.infra = "a request that the model expects to be served was not answered: " + resp.Error().Error()
 		return ""
 	}
+	r.lastResp, r.lastOK = resp.Data(), true
 	// response counted at a
 	A.cnt[proc][b]++
 	if A.cnt[proc][b] > LA {
@@ -1405,6 +1427,10 @@ func (r *erun) runEvent(e eev) string {
 		// a single request is legal only while it stays within the limit
 		if r.s.legalSem() && r.headroom(a, b, proc) < 1 {
 			return ""
+		}
+		if e.Size > 0 {
+			// a well-formed request is well-formed at every size: payload of a drawn size class, echoed by the handler
+			return r.sizedRequest(a, b, proc, e.Size)
 		}
 		r.logf("request %s -> %s %s", r.name(a), r.name(b), proc)
 		return r.request(a, b, proc, []byte("hello"))
@@ -1629,6 +1655,9 @@ func runScenario(s escn) *seqResult {
 	if s.HitRun {
 		return runHitRunScenario(s)
 	}
+	if s.Size {
+		return runSizeScenario(s)
+	}
 	res := &seqResult{labels: map[string]bool{}}
 	r := &erun{s: s, start: time.Now(), res: res}
 	defer r.teardown()
@@ -1692,7 +1721,7 @@ func runScenario(s escn) *seqResult {
 		if e.From >= s.N || e.To >= s.N || e.From == e.To {
 			continue
 		}
-		fmt.Fprintf(&key, "%s.%d.%d.%s.%d.%d.%x.%d;", e.Kind, e.From, e.To, e.Burst, e.Extra, e.K, e.Bytes, e.Proc)
+		fmt.Fprintf(&key, "%s.%d.%d.%s.%d.%d.%x.%d.%d;", e.Kind, e.From, e.To, e.Burst, e.Extra, e.K, e.Bytes, e.Proc, e.Size)
 		res.labels["event:"+e.Kind] = true
 		if v := r.runEvent(e); v != "" {
 			res.violation = v
